@@ -29,6 +29,7 @@ type assignmentBuilder struct {
 	rhsVar            gmodel.Var       // The variable on the right-hand side of the assignment.
 	additionalArgVars []gmodel.Var     // The additional arguments to use in the assignment.
 	funcName          string           // The name of the method being generated.
+	retError          bool             // Whether the method being generated returns an error.
 	copiers           []*bmodel.Copier // The list of copiers used in the generated code.
 }
 
@@ -50,6 +51,7 @@ func newAssignmentBuilder(
 		rhsVar:            rhsVar,
 		additionalArgVars: additionalArgs,
 		funcName:          m.Name(),
+		retError:          m.RetError(),
 	}
 }
 
@@ -253,6 +255,11 @@ func (b *assignmentBuilder) createWithConverter(lhs, rhs bmodel.Node, converter 
 	lhsExpr := lhs.AssignExpr()
 	posStr := b.fset.Position(converter.Pos())
 
+	if converterNode != nil && converter.RetError() && !b.retError {
+		logger.Warnf("%v: converter %v returns an error but %v does not", posStr, converter.Converter(), b.funcName)
+		converterNode = nil
+	}
+
 	if converterNode != nil {
 		rhsExpr := converterNode.AssignExpr()
 		logger.Printf("%v: assignment found: %v = %v, err", posStr, lhsExpr, rhsExpr)
@@ -286,6 +293,11 @@ func (b *assignmentBuilder) createWithMapper(lhs, rhs bmodel.Node, mapper *optio
 
 	lhsExpr := lhs.AssignExpr()
 	posStr := b.fset.Position(mapper.Pos())
+
+	if mappedNode != nil && mappedNode.ReturnsError() && !b.retError {
+		logger.Warnf("%v: %v returns an error but %v does not", posStr, mappedNode.AssignExpr(), b.funcName)
+		mappedNode = nil
+	}
 
 	if mappedNode != nil {
 		rhsExpr := mappedNode.AssignExpr()
@@ -322,6 +334,11 @@ func (b *assignmentBuilder) createWithTemplatedMapper(
 
 	lhsExpr := lhs.AssignExpr()
 	posStr := b.fset.Position(mapper.Pos())
+
+	if mappedNode != nil && mappedNode.ReturnsError() && !b.retError {
+		logger.Warnf("%v: %v returns an error but %v does not", posStr, mappedNode.AssignExpr(), b.funcName)
+		mappedNode = nil
+	}
 
 	if mappedNode != nil {
 		rhsExpr := mappedNode.AssignExpr()
